@@ -2,7 +2,7 @@
 
 PROPS = {
     'C03': {
-        'v_units': ['arith_eval'],
+        'v_units': ['arith_eval', 'arith_parse'],
         'k_units': ['arith'],
         'level': 'proof',
         'explanation': (
@@ -16,8 +16,14 @@ PROPS = {
             'no panic on a well-formed vector). Kani adds: binary_result against an i128 reference for the 23 non-multiplicative '
             'operator variants over all i64 x i64 (loop-free, complete; gives counterexamples), and, bounded, that a variable '
             'holding a constant-like text evaluates as parse_integer_constant of that text (the helper the tokenizer uses). '
-            'Not decided here: that the parser produces a well-formed vector with C precedence (parse_tree), the tokenizer '
-            '(no-panic on arbitrary text), yash-semantics glue.'),
+            'The parser (unit arith_parse: parse, parse_tree, parse_binary_rhs, parse_leaf, parse_postfix, parse_close_paren, '
+            'parse_end_of_input, with loop invariants and termination measures) is proved equal, on EVERY token sequence, to a '
+            'reference precedence-climbing parser of the ISO C 6.5 expression grammar (12 binary levels, right-associative '
+            'assignment, ?: with its C asymmetry, prefix/postfix operators, parentheses) emitting the reverse-Polish vector; '
+            'the token source is an assumed model (PeekableTokens::next/peek over a finite sequence ending in an end marker). '
+            'Not decided here: the tokenizer itself (longest-match operator table, no panic on arbitrary text: only '
+            'parse_integer_constant is checked, bounded), that the reference parser\'s output always satisfies eval\'s '
+            'well-formedness precondition (a lemma about the two reference definitions, not about code), yash-semantics glue.'),
         'trusted_base': ['Verus 0.2026.09.13 + Z3 (bundled)', 'vstd specifications of i64::checked_add/sub/mul/div/rem, Option/Result combinators',
                          'rustc 1.98.1 front end used by Verus', '/verif/tools/vextract.py (extraction is checked verbatim against the source on every run)'],
         'assumptions': [
